@@ -28,12 +28,15 @@ Section Spec.
   Notation pm := (pat_match re_ok re_match).
   Notation diag := Config.diag.
 
-  (* a pattern ending in ".lua" names files, any other pattern names folders (VS Code setting description:
-     "one11.lua indicates to ignore files; .vscode/ indicates to ignore directories"); names are relative to the
-     workspace root; a malformed pattern still counts as literal text *)
-  Definition spec_handled (i : intent) (rel : path) : bool :=
-    negb (existsb (fun dir => existsb (pm dir) (filter (fun p => negb (has_lua_suffix p)) (i_handle i))) (ancestors rel))
-    && negb (existsb (pm rel) (filter has_lua_suffix (i_handle i))).
+  (* "忽略分析指定的文件或文件夹，支持正则" (config.md; the documented example: "port/on.*lua" = the lua files of folder
+     port whose name starts with on, "tests/" = the folder tests, "one.lua" = the file one.lua): a rule takes a file out
+     of the analysis if it matches the file's name - relative to the workspace root, written with or without the
+     leading separator - or one of the folders on the way to it ("a/", "a/b/").  How the rule is spelt (whether its
+     text ends in ".lua") plays no part; a malformed pattern still counts as literal text.
+     The SAME answer is due wherever the server asks: when it walks the workspace and whenever a later request names
+     the file. *)
+  Definition rule_hits (p rel : path) : bool := existsb (fun n => pm n p) (names_of rel).
+  Definition spec_handled (i : intent) (rel : path) : bool := negb (existsb (fun p => rule_hits p rel) (i_handle i)).
 
   (* server/meta is the built-in rule for the Lua stubs shipped with the plugin;
      f = absolute name of the file, t = type of the diagnostic *)
@@ -139,4 +142,17 @@ Section Classes.
 
   (* configuration-level sufficient conditions (for every workspace) *)
   Definition special_gate_ok (g : gconf) : bool := cross_runs fx g.
+
+  (* the two ignore-for-analysis sites, on one file: both give the answer of the intent *)
+  Definition sites_ok_at (g : gconf) (i : intent) (rel : path) : bool :=
+    Bool.eqb (is_handled fx re_ok re_match g rel) (spec_handled re_ok re_match i rel)
+    && Bool.eqb (need_handle fx re_ok re_match g rel) (spec_handled re_ok re_match i rel).
+  (* guard of the filter law for the variants before the repair of the two sites: on the files of the workspace the
+     walk follows the intent (the per-file predicate is not part of `shown`) *)
+  Definition walk_ok (g : gconf) (i : intent) (files : list path) : bool :=
+    forallb (fun rel => Bool.eqb (is_handled fx re_ok re_match g rel) (spec_handled re_ok re_match i rel)) files.
+  (* class of the defect (mirror of the negated guard, both sites): some file of the workspace on which the walk or
+     the per-file predicate does not follow the intent *)
+  Definition cls_ignore_sites (g : gconf) (i : intent) (files : list path) : bool :=
+    existsb (fun rel => negb (sites_ok_at g i rel)) files.
 End Classes.
